@@ -201,6 +201,7 @@ def run_scenario(ctx, sc, acc):
                 view = {}        # (c, attempt) -> {(srv, sh): checkstring or None}
                 surveyed = {}    # (c, attempt) -> set of servers
                 met_different = set()
+                first_write_seen, published_despite_newer = set(), set()
                 nrefused = 0
                 for ev in rec.events:
                     if ev["kind"] == "s":
@@ -214,6 +215,17 @@ def run_scenario(ctx, sc, acc):
                             surveyed.setdefault(key, set()).add(ev["srv"])
                         continue
                     key = (ev["c"], ev["attempt"])
+                    if key not in first_write_seen:
+                        # the survey this attempt publishes against: did it show a version newer than every
+                        # recoverable one, but with fewer than k shares (another writer caught half-way)?
+                        first_write_seen.add(key)
+                        byv = {}
+                        for (srv_, sh_), cs_ in view.get(key, {}).items():
+                            if cs_ and cs_[0] != "?":
+                                byv.setdefault(cs_[1:], set()).add(sh_)
+                        top = max([v_[0] for v_, shs_ in byv.items() if len(shs_) >= k], default=-1)
+                        if any(v_[0] > top for v_, shs_ in byv.items() if len(shs_) < k):
+                            published_despite_newer.add(key)
                     believed = view.get(key, {}).get((ev["srv"], ev["sh"]))
                     if ev["before"] != believed:
                         met_different.add(key)
@@ -277,8 +289,14 @@ def run_scenario(ctx, sc, acc):
                 if sc["kind"] == "modify" and content is not None:
                     for c, o in enumerate(outcomes):
                         if o == "success" and tokens[c] not in content:
+                            # classify: some attempt published although its own survey showed an unrecoverable version
+                            # newer than its base (ServerMap.unrecoverable_newer_versions(): "a write will lose data")
+                            sig = "modify-success-edit-lost"
+                            if published_despite_newer:
+                                sig += ":writer-published-despite-unrecoverable-newer-version-in-its-survey"
                             ctx.violation("modify() of client %d reported success but its edit is missing from the final "
-                                          "contents %r" % (c, content[:60]), case, "modify-success-edit-lost")
+                                          "contents %r" % (c, content[:60]), case, sig,
+                                          detail={"attempts-with-newer-unrecoverable-in-survey": sorted(published_despite_newer)})
                 ctx.case(("scenario", sc["kind"], sc["fmt"], k, n, W, tuple(outcomes), tuple(sorted(len(s) for s in by.values())))
                          if nrefused else None)
                 # ---- correspondence: replay the schedule through the model (overwrite scenarios: no retries/downloads)
@@ -338,6 +356,9 @@ def run(ctx):
                        "stagger": 0})
         scs.insert(1, {"kind": "modify", "W": 2, "k": 2, "n": 4, "servers": 4, "fmt": "s", "sched": 19, "initial": "base",
                        "stagger": 0})
+        # known finding (known_findings.d/C12.json): a survey that catches the competitor half-way
+        scs.insert(2, {"kind": "modify", "W": 2, "k": 3, "n": 9, "servers": 3, "fmt": "s", "sched": 24, "initial": "base",
+                       "stagger": 0, "lose": [0, 5, 8]})
     acc = {"lines": [], "impl": [], "cases": []}
     for sc in scs:
         run_scenario(ctx, sc, acc)
